@@ -136,6 +136,8 @@ pub struct Event {
 pub struct SimState {
     /// absolute path of the scratch root, no trailing slash; empty = everything absolute is foreign
     pub root: String,
+    /// a second owned directory (the standard include directory), recorded as "$X/..."
+    pub root2: String,
     pub rules: Vec<Rule>,
     pub fds: Vec<Option<String>>,
     pub trace: Vec<Event>,
@@ -161,6 +163,7 @@ impl SimState {
     pub fn new(root: &str) -> SimState {
         SimState {
             root: root.trim_end_matches('/').to_string(),
+            root2: String::new(),
             rules: vec![],
             fds: vec![],
             trace: vec![],
@@ -287,6 +290,9 @@ fn classify_path(st: &SimState, p: &str) -> Option<String> {
         if p.starts_with(&st.root) && p.as_bytes()[st.root.len()] == b'/' {
             return Some(format!("$R{}", &p[st.root.len()..]));
         }
+    }
+    if !st.root2.is_empty() && p.starts_with(&st.root2) && p.len() > st.root2.len() && p.as_bytes()[st.root2.len()] == b'/' {
+        return Some(format!("$X{}", &p[st.root2.len()..]));
     }
     if p == "/dev/full" || p == "/dev/null" {
         return Some(p.to_string());
@@ -724,7 +730,11 @@ pub unsafe extern "C" fn statx(
     let real = || -> i64 {
         libc::syscall(libc::SYS_statx, dirfd as c_long, path, flags as c_long, mask as c_long, buf) as i64
     };
-    let empty = path.is_null() || *path == 0;
+    if path.is_null() {
+        // Rust's std probes for statx with a NULL path and expects EFAULT: not an I/O event
+        return real() as c_int;
+    }
+    let empty = *path == 0;
     if empty && (flags & libc::AT_EMPTY_PATH) != 0 {
         return fd_call(Call::Fstat, dirfd, 0, 0, &real) as c_int;
     }
@@ -928,8 +938,10 @@ fn maybe_init() {
 #[link_section = ".init_array"]
 static PRELOAD_CTOR: extern "C" fn() = {
     extern "C" fn ctor() {
-        // become subject before main() runs; the configuration is read at the first call
+        // become subject before main() runs, and read the configuration now so that the trace
+        // descriptor is moved away before the program opens anything
         ALL_THREADS.store(true, Ordering::Relaxed);
+        maybe_init();
     }
     ctor
 };
@@ -944,6 +956,18 @@ pub fn parse_conf(text: &str) -> Option<SimState> {
         let rest = it.next().unwrap_or("");
         match key {
             "root" => st.root = rest.trim_end_matches('/').to_string(),
+            "root2" => st.root2 = rest.trim_end_matches('/').to_string(),
+            "tracefd" => {
+                let fd: c_int = rest.trim().parse().ok()?;
+                // move it out of the way of the descriptors the program will get
+                let hi = unsafe { libc::syscall(libc::SYS_fcntl, fd as c_long, libc::F_DUPFD_CLOEXEC as c_long, 700 as c_long) } as c_int;
+                if hi >= 0 {
+                    unsafe { libc::syscall(libc::SYS_close, fd as c_long) };
+                    st.trace_fd = hi;
+                } else {
+                    st.trace_fd = fd;
+                }
+            }
             "trace" => {
                 let c = std::ffi::CString::new(rest).ok()?;
                 let fd = unsafe {
